@@ -176,7 +176,10 @@ TFossil ==
 TEnd == IsEvent("End") /\ UNCHANGED <<cvars, bad, div>>
 TCrash ==
   /\ IsEvent("Crash")
-  /\ bad' = <<[p |-> "C11", w |-> "the allocator crashed or hung (signal " \o ToString(Line.sig) \o ") during " \o Line.during, at |-> l]>>
+  \* a call with valid arguments that never returns: no valid block / state came back (owner by the operation), and C11 (memory safety of the accounting)
+  /\ LET w == "the allocator crashed or hung (signal " \o ToString(Line.sig) \o ") during " \o Line.during
+         own == IF Line.during \in {"checkpoint", "restore"} THEN "C05" ELSE IF Line.during = "fossil" THEN "C13" ELSE "C12" IN
+     bad' = <<[p |-> own, w |-> w, at |-> l], [p |-> "C11", w |-> w, at |-> l]>>
   /\ UNCHANGED <<cvars, div>>
 
 TInit == CInit /\ l = 1 /\ bad = <<>> /\ div = 0 /\ TLCSet(1, 0) /\ TLCSet(2, <<>>) /\ TLCSet(3, 0)
